@@ -177,31 +177,40 @@ def run(an: Analysis, rep):
             diffs.append(f"block={bt and dict(bt)}: decoder seeds={d}, encoder seeds={e}")
     rep.add("R09.2", "docstring seed guards agree", not diffs, loc(g.module, st),
             "; ".join(diffs) if diffs else f"decoder guard {norm_src(dtest)} == encoder guard {norm_src(es['test'])} on every block type")
-    # varnames seeds: both sides take the parameter sequence from the same function
-    dec_callees, enc_callees = set(), set()
+    # varnames seeds: the decoder pre-marks as many leading slots as the encoder pre-assigns (same multiset of Args fields)
+    from . import c04
+    dec_fields = enc_fields = None
+    dec_where = loc(f.module, f.node)
     for g2 in an.closure("from_code"):
         for n in ast.walk(g2.node):
             if isinstance(n, ast.DictComp) and isinstance(n.key, ast.Name) and isinstance(n.value, ast.Name) and n.key.id == n.value.id:
-                for c in ast.walk(n.generators[0].iter):
-                    if isinstance(c, ast.Attribute):
-                        dec_callees.add(c.attr)
-                    if isinstance(c, ast.Call) and isinstance(c.func, ast.Name) and c.func.id not in ("range", "len"):
-                        dec_callees.add(c.func.id)
-                seed_node = n
+                itx = n.generators[0].iter
+                if isinstance(itx, ast.Call) and isinstance(itx.func, ast.Name) and itx.func.id == "range" and len(itx.args) == 1 \
+                        and isinstance(itx.args[0], ast.Call) and isinstance(itx.args[0].func, ast.Name) and itx.args[0].func.id == "len":
+                    src = itx.args[0].args[0]
+                    base = None
+                    for a in ast.walk(src):
+                        if isinstance(a, ast.Name) and a.id in g2.params:
+                            base = a
+                    if base is not None:
+                        dec_fields = sorted(fl for fl, k, o in c04.segments(an, g2, src, base.id))
+                        dec_where = loc(g2.module, n)
     for g2 in an.closure("to_code"):
         for n in ast.walk(g2.node):
-            if isinstance(n, ast.For) and isinstance(n.iter, ast.Call) and isinstance(n.iter.func, ast.Name) and n.iter.func.id == "enumerate":
-                body_store = any(isinstance(b, ast.Assign) and isinstance(b.targets[0], ast.Subscript) for b in n.body)
-                if body_store and len(n.body) == 1:
-                    for c in ast.walk(n.iter):
-                        if isinstance(c, ast.Attribute):
-                            enc_callees.add(c.attr)
-                        if isinstance(c, ast.Call) and isinstance(c.func, ast.Name) and c.func.id not in ("enumerate",):
-                            enc_callees.add(c.func.id)
-    common = (dec_callees & enc_callees) - {"keys", "args"}
-    rep.add("R09.2", "parameter seeds come from the same sequence on both sides", bool(common), loc(f.module, f.node),
-            f"decoder pre-marks and encoder pre-assigns the local-variable slots of {sorted(common)}" if common
-            else f"decoder seeds from {sorted(dec_callees)}, encoder from {sorted(enc_callees)}: no common source")
+            if isinstance(n, ast.For) and isinstance(n.iter, ast.Call) and isinstance(n.iter.func, ast.Name) and n.iter.func.id == "enumerate" \
+                    and len(n.body) == 1 and isinstance(n.body[0], ast.Assign) and isinstance(n.body[0].targets[0], ast.Subscript):
+                src = n.iter.args[0]
+                base = None
+                for a in ast.walk(src):
+                    if isinstance(a, ast.Attribute) and a.attr == "args":
+                        base = a
+                if base is not None:
+                    enc_fields = sorted(c04._order_from_args_expr(an, g2, src, base))
+    if dec_fields is None or enc_fields is None:
+        raise AnalysisError("parameter seeding sites not recognised on both sides")
+    rep.add("R09.2", "parameter seeds cover the same slots on both sides", dec_fields == enc_fields, dec_where,
+            f"decoder pre-marks len({dec_fields}) leading local slots, the encoder pre-assigns exactly those" if dec_fields == enc_fields
+            else f"decoder pre-marks the slots of {dec_fields}, encoder pre-assigns {enc_fields}")
 
     # R09.3 additional args
     gen = None
